@@ -37,11 +37,15 @@ def recorder_class(base, helpers, is_async, calls, results):
                 async def rec(self, *a, **k):
                     b = sig.bind(self, *a, **k)
                     calls.append((name, dict(b.arguments)))
+                    results[name] = Sentinel('result-%s-%d' % (
+                        name, len(calls) + id(calls) % 7))
                     return results[name]
             else:
                 def rec(self, *a, **k):
                     b = sig.bind(self, *a, **k)
                     calls.append((name, dict(b.arguments)))
+                    results[name] = Sentinel('result-%s-%d' % (
+                        name, len(calls) + id(calls) % 7))
                     return results[name]
             return rec
         d[name] = make(name, sig, inspect.iscoroutinefunction(real))
@@ -133,7 +137,10 @@ def one_call(cname, h, ns, regns, target, calls, results, required, subset,
         supplied[p.name] = Sentinel('req-' + p.name)
     for i, p in enumerate(subset):
         if p.name == 'namespace':
-            supplied[p.name] = '/override'
+            # an explicit override, including the default namespace given
+            # explicitly to an object registered elsewhere
+            supplied[p.name] = '/' if (falsy and regns != '/') \
+                else '/override'
         elif falsy:
             supplied[p.name] = FALSY[(k + i) % len(FALSY)]
         else:
@@ -159,11 +166,16 @@ def one_call(cname, h, ns, regns, target, calls, results, required, subset,
     else:
         args = [supplied[p.name] for p in required]
         kwargs = {p.name: supplied[p.name] for p in subset}
-    del calls[:]
     what = f'{cname}({regns!r}).{h}({style}: ' \
            f'{", ".join(f"{n}={v!r}" for n, v in supplied.items())})'
     key = f'C17/{cname}.{h}'
     try:
+        # the same call twice: every call is forwarded and hands back
+        # what *that* call produced
+        r0 = getattr(ns, h)(*args, **kwargs)
+        if asyncio.iscoroutine(r0):
+            r0 = loop.run_value(r0)
+        del calls[:]
         r = getattr(ns, h)(*args, **kwargs)
         if asyncio.iscoroutine(r):
             r = loop.run_value(r)
